@@ -114,6 +114,11 @@ type c10Case struct {
 	RandSeed    int64     `json:"rand_seed"`
 	ReadTS      uint64    `json:"read_ts"`
 	RejectTS    bool      `json:"reject_ts"` // the read-ts validator rejects ReadTS
+	// sequences of sends on one RegionCache: Before are the sends executed earlier on the same cache (same Stores,
+	// Forwarding, Leader, Slow as this case); KeepLive leaves store liveness as the earlier sends left it instead of
+	// resetting it to Unreach.
+	KeepLive bool       `json:"keep_live,omitempty"`
+	Before   []*c10Case `json:"before,omitempty"`
 }
 
 func (c *c10Case) scriptString() string {
@@ -244,7 +249,7 @@ type c10Client struct {
 	bo       *retry.Backoffer
 	cancel   context.CancelFunc
 	killed   *uint32
-	live     map[uint64]livenessState // by store id; guarded by mu
+	w        *c10World
 	attempts []c10Attempt
 	nAtt     int
 	hints    int
@@ -268,6 +273,7 @@ type c10Client struct {
 	prevBoTimes   int
 	prevKind      string
 	freeSameAfter map[string]int // kind answered -> immediate re-sends to the same store without back-off
+	uses          map[uint64]int // store id -> attempts of this send that involved the store as target or as proxy
 }
 
 func (c *c10Client) Close() error { return nil }
@@ -325,8 +331,15 @@ func (c *c10Client) answer(ctx context.Context, addr string, req *tikvrpc.Reques
 		c.writeFlagged.ReplicaRead = at.ReplicaRead || req.Context.ReplicaRead
 		c.writeFlagged.StaleRead = at.StaleRead || req.Context.StaleRead
 	}
+	if c.uses == nil {
+		c.uses = map[uint64]int{}
+	}
+	c.uses[at.Store]++
 	if at.Fwd != "" {
 		c.nFwd++
+		if i, ok := c.topo.addr2idx[addr]; ok && c.topo.storeIDs[i] != at.Store {
+			c.uses[c.topo.storeIDs[i]]++
+		}
 	}
 	if at.ReplicaRead {
 		c.nReplicaRead++
@@ -401,7 +414,9 @@ func (c *c10Client) produce(step c10Step, k int, addr string, req *tikvrpc.Reque
 		return nil, errors.New("c10 injected transport error (no response for " + req.Type.String() + ")")
 	case c10RPC:
 		if c.cs.DownOnRPC && req.ForwardedHost == "" {
-			c.live[t.storeIDs[t.addr2idx[addr]]] = unreachable
+			c.w.mu.Lock()
+			c.w.live[t.storeIDs[t.addr2idx[addr]]] = unreachable
+			c.w.mu.Unlock()
 		}
 		return nil, errors.New("c10 injected transport error")
 	case c10Deadline:
@@ -685,51 +700,125 @@ func (v *c10Validator) ValidateReadTS(ctx context.Context, readTS uint64, isStal
 // ---------------------------------------------------------------- one send
 
 type c10Outcome struct {
-	cli        *c10Client
-	val        *c10Validator
-	resp       *tikvrpc.Response
-	err        error
-	panicked   interface{}
-	hung       bool
-	n          int // TiKV replicas of the region
-	isWrite    bool
-	boTimes    int
-	boSleep    int
-	budgetGone bool
-	ctxDone    bool
+	cli         *c10Client
+	val         *c10Validator
+	resp        *tikvrpc.Response
+	err         error
+	panicked    interface{}
+	hung        bool
+	n           int // TiKV replicas of the region
+	isWrite     bool
+	boTimes     int
+	boSleep     int
+	budgetGone  bool
+	ctxDone     bool
+	proxyBefore int // proxy index remembered by the cached region when the send started (-1 none)
 }
 
-// c10Send executes one case against the real sender.
-func c10Send(t *c10Topo, c *c10Case) (out *c10Outcome) {
+// c10World is one RegionCache (with its cached region, store states and proxy
+// bookkeeping) that one or several sends run against.
+type c10World struct {
+	t     *c10Topo
+	cache *RegionCache
+	mu    sync.Mutex
+	live  map[uint64]livenessState // what a liveness probe of the store answers; guarded by mu
+	sends int
+}
+
+func c10OpenWorld(t *c10Topo, c *c10Case) *c10World {
+	w := &c10World{t: t, live: map[uint64]livenessState{}}
+	w.cache = NewRegionCache(t.pd, RegionCacheNoHealthTick)
+	w.cache.enableForwarding = c.Forwarding
+	for _, id := range t.storeIDs {
+		w.live[id] = reachable
+	}
+	w.cache.stores.setMockRequestLiveness(func(ctx context.Context, s *Store) livenessState {
+		w.mu.Lock()
+		defer w.mu.Unlock()
+		if l, ok := w.live[s.storeID]; ok {
+			return l
+		}
+		return reachable
+	})
+	region := w.locate()
+	if c.Leader%t.voters != 0 {
+		region.switchWorkLeaderToPeer(region.meta.Peers[c.Leader%t.voters])
+	}
+	for _, st := range region.getStore().stores {
+		for _, i := range c.Slow {
+			if st.storeID == t.storeIDs[i%t.n] {
+				st.healthStatus.markAlreadySlow()
+			}
+		}
+	}
+	return w
+}
+
+func (w *c10World) close() { w.cache.Close() }
+
+// locate does what a caller does before a send: look the region up (reloads it from PD when a previous send
+// invalidated it, otherwise the cached region with its leader/proxy bookkeeping is reused).
+func (w *c10World) locate() *Region {
+	loc, err := w.cache.LocateKey(retry.NewNoopBackoff(context.Background()), []byte("key"))
+	if err != nil {
+		panic(fmt.Sprintf("c10: cannot load the region: %v", err))
+	}
+	return w.cache.GetCachedRegionWithRLock(loc.Region)
+}
+
+// setLiveness plays the part of the store health-check loop (disabled by failpoint in this harness): the listed
+// stores are unreachable, all others are (again) reachable, both for new probes and in the cached state.
+func (w *c10World) setLiveness(region *Region, unreach []int) {
+	down := map[uint64]bool{}
+	for _, i := range unreach {
+		down[w.t.storeIDs[i%w.t.n]] = true
+	}
+	w.mu.Lock()
+	for _, id := range w.t.storeIDs {
+		if down[id] {
+			w.live[id] = unreachable
+		} else {
+			w.live[id] = reachable
+		}
+	}
+	w.mu.Unlock()
+	for _, st := range region.getStore().stores {
+		l := reachable
+		if down[st.storeID] {
+			l = unreachable
+		}
+		atomic.StoreUint32(&st.livenessState, uint32(l))
+	}
+}
+
+// c10Send executes one case against the real sender in a world of its own.
+func c10Send(t *c10Topo, c *c10Case) *c10Outcome {
+	w := c10OpenWorld(t, c)
+	defer w.close()
+	return w.send(c)
+}
+
+// send executes one send in the world.
+func (w *c10World) send(c *c10Case) (out *c10Outcome) {
+	t := w.t
 	out = &c10Outcome{}
-	cache := NewRegionCache(t.pd, RegionCacheNoHealthTick)
-	defer cache.Close()
-	cache.enableForwarding = c.Forwarding
+	region := w.locate()
+	if w.sends == 0 || !c.KeepLive {
+		w.setLiveness(region, c.Unreach)
+	}
+	w.sends++
+	cache := w.cache
 
 	ctx, cancel := context.WithCancel(context.Background())
 	defer cancel()
 	var killed uint32
-	cli := &c10Client{topo: t, cs: c, cancel: cancel, killed: &killed, live: map[uint64]livenessState{}}
+	cli := &c10Client{topo: t, w: w, cs: c, cancel: cancel, killed: &killed}
 	out.cli = cli
 	defer func() {
 		if cli.shutdown {
 			StoreShuttingDown(0)
 		}
 	}()
-	for _, id := range t.storeIDs {
-		cli.live[id] = reachable
-	}
-	for _, i := range c.Unreach {
-		cli.live[t.storeIDs[i%t.n]] = unreachable
-	}
-	cache.stores.setMockRequestLiveness(func(ctx context.Context, s *Store) livenessState {
-		cli.mu.Lock()
-		defer cli.mu.Unlock()
-		if l, ok := cli.live[s.storeID]; ok {
-			return l
-		}
-		return reachable
-	})
 	rng := rand.New(rand.NewSource(c.RandSeed))
 	var rmu sync.Mutex
 	randIntn = func(n int) int {
@@ -739,27 +828,9 @@ func c10Send(t *c10Topo, c *c10Case) (out *c10Outcome) {
 	}
 	defer func() { randIntn = rand.Intn }()
 
-	loc, err := cache.LocateKey(retry.NewNoopBackoff(context.Background()), []byte("key"))
-	if err != nil {
-		panic(fmt.Sprintf("c10: cannot load the region: %v", err))
-	}
-	region := cache.GetCachedRegionWithRLock(loc.Region)
 	out.n = len(region.getStore().accessIndex[tiKVOnly])
-	if c.Leader%t.voters != 0 {
-		region.switchWorkLeaderToPeer(region.meta.Peers[c.Leader%t.voters])
-	}
-	for _, st := range region.getStore().stores {
-		for _, i := range c.Unreach {
-			if st.storeID == t.storeIDs[i%t.n] {
-				atomic.StoreUint32(&st.livenessState, uint32(unreachable))
-			}
-		}
-		for _, i := range c.Slow {
-			if st.storeID == t.storeIDs[i%t.n] {
-				st.healthStatus.markAlreadySlow()
-			}
-		}
-	}
+	out.proxyBefore = int(region.getStore().proxyTiKVIdx)
+	regionID := region.VerID()
 
 	val := &c10Validator{reject: map[uint64]bool{}}
 	if c.RejectTS {
@@ -782,7 +853,7 @@ func c10Send(t *c10Topo, c *c10Case) (out *c10Outcome) {
 					out.panicked = p
 				}
 			}()
-			out.resp, _, _, out.err = sender.SendReqCtx(bo, req, loc.Region, timeout, tikvrpc.TiKV, opts...)
+			out.resp, _, _, out.err = sender.SendReqCtx(bo, req, regionID, timeout, tikvrpc.TiKV, opts...)
 		}()
 	} else {
 		rl := async.NewRunLoop()
@@ -801,7 +872,7 @@ func c10Send(t *c10Topo, c *c10Case) (out *c10Outcome) {
 					done = true
 				}
 			}()
-			sender.SendReqAsync(bo, req, loc.Region, timeout, cb, opts...)
+			sender.SendReqAsync(bo, req, regionID, timeout, cb, opts...)
 		}()
 		// generous wall-clock watchdog; its firing is inconclusive, not a verdict
 		wctx, wcancel := context.WithTimeout(context.Background(), 60*time.Second)
